@@ -258,10 +258,11 @@ func (grid *RegularGrid) GetRegion(min Vector3f, max Vector3f) []*Quad {
 	min = Vector3f{(float32)(math.Max((float64)(min.x), (float64)(grid.Min.x))), 0, (float32)(math.Max((float64)(min.z), (float64)(grid.Min.z)))}
 	max = Vector3f{(float32)(math.Min((float64)(max.x), (float64)(grid.Max.x))), 0, (float32)(math.Min((float64)(max.z), (float64)(grid.Max.z)))}
 
-	minXGridCoord := (uint)(math.Floor((float64)(min.x-grid.Min.x) / (float64)(grid.Resolution)))
-	minYGridCoord := (uint)(math.Floor((float64)(min.z-grid.Min.z) / (float64)(grid.Resolution)))
-	maxXGridCoord := (uint)(math.Floor((float64)(max.x-grid.Min.x) / (float64)(grid.Resolution)))
-	maxYGridCoord := (uint)(math.Floor((float64)(max.z-grid.Min.z) / (float64)(grid.Resolution)))
+	// the corners come from the client: NaN, or a max corner below the grid, must not index past the grid
+	minXGridCoord := clampCellCoord(math.Floor((float64)(min.x-grid.Min.x)/(float64)(grid.Resolution)), len(grid.Grid[0]))
+	minYGridCoord := clampCellCoord(math.Floor((float64)(min.z-grid.Min.z)/(float64)(grid.Resolution)), len(grid.Grid))
+	maxXGridCoord := clampCellCoord(math.Floor((float64)(max.x-grid.Min.x)/(float64)(grid.Resolution)), len(grid.Grid[0]))
+	maxYGridCoord := clampCellCoord(math.Floor((float64)(max.z-grid.Min.z)/(float64)(grid.Resolution)), len(grid.Grid))
 
 	result := make(map[*Quad]bool, 0)
 	for y := minYGridCoord; y < maxYGridCoord; y++ {
@@ -280,6 +281,18 @@ func (grid *RegularGrid) GetRegion(min Vector3f, max Vector3f) []*Quad {
 	}
 
 	return quads
+}
+
+// clampCellCoord converts a cell coordinate to an index in [0, count]. NaN and
+// negative coordinates map to 0, coordinates past the grid map to count.
+func clampCellCoord(coord float64, count int) uint {
+	if !(coord > 0) {
+		return 0
+	}
+	if coord >= (float64)(count) {
+		return (uint)(count)
+	}
+	return (uint)(coord)
 }
 
 func (grid *RegularGrid) GetDebugInfo() SpatialDebugInfo {
